@@ -50,19 +50,34 @@ def parseScript (toks : List String) : Option (List (Nat × Action)) :=
   toks.mapM (fun t => match t.splitOn ":" with
     | [k, "s"] => k.toNat?.map (fun k => (k, Action.stop))
     | [k, "e"] => k.toNat?.map (fun k => (k, Action.error))
+    -- error answers whose boxed value is itself a `ParseState`: still the consumer's own error value
+    | [k, "p"] => k.toNat?.map (fun k => (k, Action.error))
+    | [k, "q"] => k.toNat?.map (fun k => (k, Action.error))
+    | [k, "c"] => k.toNat?.map (fun k => (k, Action.error))
     | _ => none)
+
+/-- what the harness prints for the consumer's error value at callback `k` -/
+def payloadText (toks : List String) (k : Nat) : String :=
+  match toks.findSome? (fun t => match t.splitOn ":" with
+      | [k', f] => if k'.toNat? == some k then some f else none
+      | _ => none) with
+  | some "p" => "state:incorrect_module_header"
+  | some "q" => "state:stop_parsing_requested_by_consumer"
+  | some "c" => "state:completed_parsing"
+  | _ => s!"script{k}"
 
 def scriptFn (s : List (Nat × Action)) (k : Nat) : Action :=
   match s.find? (fun p => p.1 == k) with
   | some p => p.2
   | none => .continue_
 
-def showRun (r : Run) : String :=
+def showRun (r : Run) (script : List String := []) : String :=
   match r.result with
   | .panic _ => "panic"
   | res =>
     let st := match res with
       | .ok _ => "ok"
+      | .err (.consumerError k) => "ConsumerError:" ++ payloadText script k
       | .err e => showPErr e
       | .panic _ => "panic"
     let tr := String.ofList (r.trace.map (fun e => match e with
@@ -105,7 +120,7 @@ def respondParseEntry (rest : List String) (wordsOnly : Bool) : Option String :=
     match unhex hx, parseScript script with
     | some bytes, some sc =>
       if wordsOnly && bytes.length % 4 != 0 then some "bad-request"
-      else some (showRun (parse theTables (scriptFn sc) bytes))
+      else some (showRun (parse theTables (scriptFn sc) bytes) script)
     | _, _ => some "bad-request"
 
 def respondParse (ws : List String) : Option String :=
@@ -115,7 +130,7 @@ def respondParse (ws : List String) : Option String :=
     | [] => some "bad-request"
     | hx :: script =>
       match unhex hx, parseScript script with
-      | some bytes, some sc => some (showRun (parse theTables (scriptFn sc) bytes))
+      | some bytes, some sc => some (showRun (parse theTables (scriptFn sc) bytes) script)
       | _, _ => some "bad-request"
   | "parseb" :: rest => respondParseEntry rest false
   | "parsew" :: rest => respondParseEntry rest true
